@@ -133,7 +133,8 @@ def header(r, token_spec=None, token=None, near=None):
     if near is not None:
         fields[4] = near
     text = "|".join(fields)
-    return gens.frame(1, text.encode("latin-1"), True), fields
+    # (the frame number is not part of the header: senders start at 1, some at 0, a joined message carries 1)
+    return gens.frame(r.choice([1, 1, 1, 0, 2, 5, 7]), text.encode("latin-1"), True), fields
 
 
 def run(ctx):
